@@ -1414,8 +1414,9 @@ impl FdlActiveStation {
             return self.do_pass_token(now, phy);
         }
 
+        let pending_before = phy.poll_pending_received_bytes(now);
         let mut first_in = true;
-        phy.receive_all_telegrams(now, |telegram, is_last_telegram| {
+        let res = phy.receive_all_telegrams(now, |telegram, is_last_telegram| {
             self.mark_rx(now);
 
             // Only check and transition to ActiveIdle on the first telegram.
@@ -1444,8 +1445,22 @@ impl FdlActiveStation {
                 first_in = false;
             }
             self.handle_telegram(now, telegram, is_last_telegram)
-        })
-        .unwrap_or(PollDone::waiting_for_bus())
+        });
+
+        if first_in && pending_before > 0 && phy.poll_pending_received_bytes(now) == 0 {
+            // Undecodable data was received (and discarded) after our token pass.  Someone is
+            // transmitting, so we must not assume the bus is ours for a retry: Another station is
+            // active and we back off to ActiveIdle, just like for a valid telegram.
+            log::warn!(
+                "Undecodable bus activity after token pass to #{}",
+                self.token_ring.next_station()
+            );
+            self.pending_bytes = 0;
+            self.state.transition_active_idle();
+            return PollDone::waiting_for_bus();
+        }
+
+        res.unwrap_or(PollDone::waiting_for_bus())
     }
 
     /// Poll the bus with a single active application.
